@@ -81,8 +81,16 @@ def handleC15 (op : String) (input impl : Json) : Except String Json := do
             | r :: rs' => go rest rs' (r :: acc)
             | [] => acc.reverse
       go opsJ outs []
-    let outsCJ := splice ((runC Facts.refFilterIsLiteralPrefix { refs := [], logs := [] } ops).map jROut)
-    let outsAJ := splice ((runA { vals := [], logs := [] } ops).map jROut)
+    -- `"store":"fs"`: the sequence ran on the file-based store (pkg/ref/fs). It is judged by the same
+    -- abstract map in its file-store form `runAF` (Spec/RefStore.lean: deleting an unbound name is an
+    -- error; rename/copy replace a bound destination, value and log); there is no separate concrete
+    -- model of the file store, so the reported model trace is that map's too. What the runner does
+    -- differently for this store (old value handed in by the caller as ref.SaveRef does, FilterKey
+    -- sorted) and what is never generated for it is listed in harness/c15.go (`c15FsDomain`).
+    let fs := fldD input "store" Json.null == Json.str "fs"
+    let outsAJ := splice (((if fs then runAF else runA) { vals := [], logs := [] } ops).map jROut)
+    let outsCJ := if fs then outsAJ
+      else splice ((runC Facts.refFilterIsLiteralPrefix { refs := [], logs := [] } ops).map jROut)
     let mj := Json.mkObj [("res", "ok"), ("val", Json.arr outsCJ.toArray)]
     let viol ←
       if resClass impl == "ok" then do
